@@ -78,7 +78,11 @@ def pre_state(tree, nsnap=1):
         async def go():
             r = await W.a_open(st, None, N=2)
             with W.captured():
-                for _ in range(nsnap):
+                for i in range(nsnap):
+                    if nsnap > 1:
+                        # older snapshots hold older content of the same paths; the newest holds the tree itself
+                        for k, v in TREES[tree].items():
+                            (d / k).write_bytes(v if i == nsnap - 1 else bytes(reversed(v)))
                     await r.snapshot(paths=[d])
                 await r.close()
 
